@@ -10,7 +10,7 @@ for s in $names; do
   id=${s%-*}
   [ -f checks/$id.py ] || { echo "| $s | $id | (no check yet) | |" >>"$tmp"; continue; }
   r=$(timeout 1800 tools/seedtest.sh "$id" "seeded/$s/patch.diff" "$tier" 2>&1)
-  res=$(echo "$r" | grep "^RESULT" | sed 's/^RESULT [^:]*: //'); [ -n "$res" ] || res="NO RESULT (timeout or crash)"
+  res=$(echo "$r" | grep "^RESULT" | sed "s/^RESULT [^:]*: //"); [ -n "$res" ] || { echo "$r" | grep -q PATCH-DOES-NOT-APPLY && res="PATCH DOES NOT APPLY TO HEAD" || res="NO RESULT (timeout or crash)"; }
   why=$(echo "$r" | grep -A1 "^VIOLATION" | tail -1 | sed 's/^ *//' | cut -c1-160 | tr '|' '/')
   echo "| $s | $id | $res | $why |" >>"$tmp"
   python3 - "$s" "$res" "$why" "$tier" <<'PY'
